@@ -10,7 +10,7 @@ python3 - <<'PY'
 import sys; sys.path.insert(0, 'lib')
 import runner
 runner.build_driver()
-for b in ['debug', 'release']:
+for b in ['debug', 'release', 'xen-debug', 'xen-release']:
     runner.build_harness(b)
 print('setup ok')
 PY
